@@ -5,7 +5,7 @@ id=$1; v=$2
 OUT=${SEED_OUT:-/tmp/seeded-out}; PFX=${SEED_PREFIX:-seeded}
 wt=/tmp/confirm-wt-$id$v
 out=$OUT/$id/confirm_$v.txt
-export CARGO_TARGET_DIR=/tmp/confirm-target CARGO_NET_OFFLINE=true TMPDIR=/tmp/confirm-tmp-$id$v
+export CARGO_TARGET_DIR=${CONFIRM_TARGET:-/tmp/confirm-target} CARGO_NET_OFFLINE=true TMPDIR=/tmp/confirm-tmp-$id$v
 mkdir -p $TMPDIR
 rm -rf $wt; git -C /repo worktree add -q --detach $wt HEAD || exit 2
 cd $wt
